@@ -63,7 +63,7 @@ type vfC05 struct {
 	returned  map[uint32]uint32 // reply token -> exchange token that returned it
 	nextTok   uint32
 	nextRTok  uint32
-	stats     struct{ overlap, reorder, dup, unsolicited, late, closes, retried int }
+	stats     struct{ overlap, reorder, dup, unsolicited, late, closes, retried, replyAndClose int }
 }
 
 func (h *vfC05) scan() {
@@ -297,6 +297,67 @@ func TestVfC05Pipeline(t *testing.T) {
 					start(t)
 				}
 			},
+			// The reply AND the end of the connection both arrive while the exchange is still inside its write: when the
+			// writer comes back it finds both ready at once. Whatever it returns then, a message must be its own reply
+			// under the caller's ID.
+			"replyAndCloseDuringWrite": func(t *rapid.T) {
+				setHold := func(on bool) {
+					srv.mu.Lock()
+					srv.holdNew = on
+					cs := append([]*vfkit.MemConn(nil), srv.conns...)
+					srv.mu.Unlock()
+					for _, c := range cs {
+						c.HoldWrites(on)
+					}
+				}
+				setHold(true)
+				h.nextTok++
+				e := &vfExch{token: h.nextTok, callerID: rapid.Uint16().Draw(t, "callerID"), done: make(chan struct{})}
+				e.query = vfQuery(e.callerID, e.token)
+				e.orig = append([]byte(nil), e.query...)
+				ctx, cancel := context.WithCancel(context.Background())
+				e.cancel = cancel
+				h.exchs = append(h.exchs, e)
+				go func() {
+					defer close(e.done)
+					m, err := tr.ExchangeContext(ctx, e.query)
+					e.err = err
+					if m != nil {
+						e.gotMsg = true
+						e.respID = m.Header.ID
+						e.respTok, e.tokOK = vfReplyToken(m)
+						dnsmsg.ReleaseMsg(m)
+					}
+				}()
+				// wait until the held write has put the query on some connection
+				var w vfWire
+				found := false
+				for deadline := time.Now().Add(vfStall); !found && time.Now().Before(deadline); time.Sleep(50 * time.Microsecond) {
+					h.scan()
+					for _, ow := range h.owner[e.token] {
+						if h.connOpen(ow.conn) {
+							w, found = ow, true
+						}
+					}
+					if e.finished() {
+						break
+					}
+				}
+				if found {
+					h.deliver(w.conn, w.wireID, e.token)
+					c := srv.snapshot()[w.conn]
+					for deadline := time.Now().Add(vfStall); !c.Drained() && time.Now().Before(deadline); {
+						time.Sleep(20 * time.Microsecond)
+					}
+					c.ServerClose(nil)
+					c.WaitQuiet(20 * time.Millisecond)
+					h.stats.replyAndClose++
+				}
+				setHold(false)
+				// the exchange either returns now (its reply, or the close error), or it is being retried on another
+				// connection and stays active like any other
+				h.settle()
+			},
 			"cancel": func(t *rapid.T) {
 				a := h.active()
 				if len(a) == 0 {
@@ -418,7 +479,7 @@ func TestVfC05Pipeline(t *testing.T) {
 		h.check()
 		nontrivial := h.stats.overlap >= 1 && (h.stats.reorder+h.stats.dup+h.stats.unsolicited+h.stats.late) >= 1
 		classes := []string{}
-		for n, v := range map[string]int{"overlap": h.stats.overlap, "reorder": h.stats.reorder, "dup": h.stats.dup, "unsolicited": h.stats.unsolicited, "late": h.stats.late, "server-close": h.stats.closes, "retried": h.stats.retried} {
+		for n, v := range map[string]int{"overlap": h.stats.overlap, "reorder": h.stats.reorder, "dup": h.stats.dup, "unsolicited": h.stats.unsolicited, "late": h.stats.late, "server-close": h.stats.closes, "retried": h.stats.retried, "reply-and-close-during-write": h.stats.replyAndClose} {
 			if v > 0 {
 				classes = append(classes, n)
 			}
